@@ -290,7 +290,7 @@ def rule_B3(ctx: Ctx) -> None:
         ends = {d.get("then"), d.get("else")}
         cur = None
         for s in ast.walk(lp):
-            if isinstance(s, ast.Assign) and isinstance(s.value, ast.Call) and X.U(s.value.func) == "stack.pop":
+            if isinstance(s, ast.Assign) and all(isinstance(a, ast.Call) and X.U(a.func) == "stack.pop" for a in X.alternatives(s.value)):
                 cur = X.U(s.targets[0])
         ctx.judge(f, ends == {cur, chosen[0]} and f"{chosen[1]}.sum()" in d.get("condition", ""),
                   {"endpoints": sorted(str(e) for e in ends), "current": cur, "chosen": chosen[0], "condition": d.get("condition")},
